@@ -545,3 +545,43 @@ func CmpGuards(in ssa.Instruction) []Cmp {
 	}
 	return out
 }
+
+// EdgeCmps returns, for every conditional edge of fn, the comparison it establishes.
+func EdgeCmps(fn *ssa.Function) map[Edge]Cmp {
+	out := map[Edge]Cmp{}
+	for _, b := range fn.Blocks {
+		if len(b.Instrs) == 0 {
+			continue
+		}
+		iff, ok := b.Instrs[len(b.Instrs)-1].(*ssa.If)
+		if !ok || len(b.Succs) != 2 || b.Succs[0] == b.Succs[1] {
+			continue
+		}
+		if c, ok := (Guard{iff, iff.Cond, true}).AsCmp(); ok {
+			out[Edge{b, b.Succs[0]}] = c
+		}
+		if c, ok := (Guard{iff, iff.Cond, false}).AsCmp(); ok {
+			out[Edge{b, b.Succs[1]}] = c
+		}
+	}
+	return out
+}
+
+// EdgesWhere selects the conditional edges whose established comparison (in either
+// operand order) satisfies pred.
+func EdgesWhere(fn *ssa.Function, pred func(Cmp) bool) map[Edge]bool {
+	out := map[Edge]bool{}
+	for e, c := range EdgeCmps(fn) {
+		if pred(c) || pred(c.Flip()) {
+			out[e] = true
+		}
+	}
+	return out
+}
+
+// MustPassEdge reports whether every path from the entry of fn (or from `from`) to
+// `to` takes one of the edges, or passes a barrier instruction.
+func MustPassEdge(fn *ssa.Function, from, to ssa.Instruction, edges map[Edge]bool, barrier func(ssa.Instruction) bool) (bool, []int) {
+	r, path := Reach(Search{From: from, Fn: fn, Blocked: edges, Barrier: barrier}, Is(to))
+	return !r, path
+}
